@@ -108,4 +108,21 @@ CLAIMED["C09"] = {"text": "Coq theorem for EVERY decoded request path (any bytes
                  "judged in Coq against the cleaned-path model (content only of the file the cleaned path names; never a canary; notices).",
          "note": TB + "net/http parser, ServeMux, FileServer, http.Dir are standard library (modelled by their contract); symlinks out of the tree are followed by design.",
          "technique": "Coq proof (lexical confinement of the cleaned path) + canary-based differential test judged by vm_compute"}
+CLAIMED["C07"] = {"text": "Coq theorems: the callback address is chosen by the stated precedence (one theorem per branch, together total); with the default "
+                 "template both curl commands are built from the same (pin, address, ID); broken/missing/failing templates and undeterminable addresses "
+                 "give an error status without script; IDs are non-empty, [0-9a-z] only, and injective in the 64-bit random number. Tie: ~105 requests "
+                 "per quick run against the real Server (direct handler calls with crafted Host/SNI/c2 in query, POST form and header; raw HTTP/1.0 "
+                 "over TLS; listen port 443; a template file edited, broken, removed and re-created between requests), response compared in Coq with "
+                 "the model script for the ID found. PARTIAL for 'yields a working shell': the served script is piped to /bin/sh with real curl and a "
+                 "command round-trips (behavioural test).",
+         "note": TB + "text/template engine, idna.ToASCII (verdict taken from the real library), math/rand, curl, sh are environment.",
+         "technique": "Coq proof (case analysis, base-36 round trip) + differential correspondence judged by vm_compute + end-to-end script run"}
+CLAIMED["C05"] = {"text": "Coq theorems (data flow / formatting): the pin position of every one-liner holds exactly the listener's fingerprint string, both curls "
+                 "of every script carry it, base64 is injective and decodable (another string of the shape is another 32-byte value), user ports kept / "
+                 "bound port appended. PARTIAL for 'equals the hash of the key really served': on every run, for 12 configurations (6 listen forms, "
+                 "callback-address sets, fresh/cached/full-chain/regenerated-underneath caches, restarts, help re-printed after a shell died) a TLS client "
+                 "records the leaf it is shown and Coq itself computes base64(SHA-256(SubjectPublicKeyInfo)) (Gallina SHA-256, vm_compute) and compares it "
+                 "with every advertised pin.",
+         "note": TB + "TLS presents Certificates[0]; SHA-256 collision resistance; curl's pin check (exercised in C07's run) are assumptions.",
+         "technique": "Coq proof of the formatting/data-flow half + in-Coq recomputation of the pin of the observed key (validation by computation)"}
 NOT_CLAIMED = {}
